@@ -155,6 +155,23 @@ add('C12', 'exploration',
     'Only opens inside the sandbox tree are judged; isfile probes are not.',
     'DESIGN.md 5/C12')
 
+add('C13', 'exploration',
+    'exhaustive enumeration of section assignments (<=2 specified sections, thorough all 4^6) x 4 OUT states + .lua sources + '
+    'all error combinations through the real CLI entry on real files; sources written and OUT read back by independent codecs',
+    'Every enumerated assignment: each OUT section equals the named source / empty default / previous content, labels kept; '
+    'every error combination fails and leaves OUT byte-identical.',
+    'Empty default = PICO-8-written empty.p8; independent reference writers/readers.',
+    'DESIGN.md 5/C13')
+
+add('C14', 'exploration',
+    'exhaustive enumeration of require graphs (all edge sets on main+2/3 packages), package body shapes (every statement kind x '
+    'game-loop placements x final newline x use_game_loop), path layouts and malformed require()s through the real build '
+    'command; OUT re-lexed by the reference lexer and matched against the files\' token streams',
+    'Built code parses to the end, ends with main\'s tokens, defines each reachable package exactly once with its tokens minus '
+    'stripped game-loop functions, loader present; errors refuse and write nothing.',
+    'Reference lexer; block order and loader text not fixed.',
+    'DESIGN.md 5/C14')
+
 PENDING = {
 }
 
